@@ -92,6 +92,11 @@ def _strategy(tier, var):
     return case()
 
 
+class Excluded(Exception):
+    """The generated coupled system left the domain the property speaks about (explicitly unstable feedback coefficients: the
+    body is thrown towards the boundary or the fields overflow) - counted, not a violation and not a pass."""
+
+
 class Run:
     """One coupled flow-body run built only from public constructors."""
 
@@ -162,7 +167,7 @@ class Run:
 
     def step(self, ctx):
         dt, b, it, dim = self.dt, self.body, self.inter, self.dim
-        with ctx.repo_call("coupled step"):
+        with ctx.repo_call("coupled step", allow=(Excluded,)):
             it.compute_flow_forces_and_torques()
             acc = it.body_flow_forces / self.case["mass"] + self.case["spring"] * (self.x0 - b.position_collection)
             if dim == 2:
@@ -170,6 +175,15 @@ class Run:
             acc *= self.slow
             b.velocity_collection[...] += dt * acc
             b.position_collection[...] += dt * b.velocity_collection
+            # admissible domain of the immersed-boundary kernels: every marker at least two cells inside (kept at three here
+            # because the markers follow the body); finite fields of moderate size (the kernels are compiled with -Ofast)
+            it.forcing_grid.compute_lag_grid_position_field()
+            pos = it.forcing_grid.position_field
+            ext = [self.cfg["shape"][dim - 1 - c] * float(self.sim.dx) for c in range(dim)]
+            lim = 3.0 * float(self.sim.dx)
+            if (not np.all(np.isfinite(pos)) or any(pos[c].min() < lim or pos[c].max() > ext[c] - lim for c in range(dim))
+                    or not float(np.max(np.abs(self.sim.vorticity_field))) < 1e12):
+                raise Excluded()
             it.time_step(dt=dt)
             it()
             self.sim.time_step(dt=dt, free_stream_velocity=self.fs)
@@ -248,6 +262,15 @@ def _body(case, ctx):
     ks = list(range(K + 1)) if ctx.tier == "thorough" else [case["k"]]
     tmp = tempfile.mkdtemp(prefix="sophtverif_c18_")
     try:
+        _body_inner(case, ctx, K, ks, tmp)
+    except Excluded:
+        ctx.note(labels=["excluded_unstable_coupling_left_the_domain"])
+    finally:
+        shutil.rmtree(tmp, ignore_errors=True)
+
+
+def _body_inner(case, ctx, K, ks, tmp):
+    if True:
         A = Run(case, ctx)
         A.set_initial_fields()
         dt = A.choose_dt()
@@ -269,8 +292,6 @@ def _body(case, ctx):
             ctx.note(labels=["checkpoint_overwrote_earlier_file", "io_objects_reused" if reuse else "io_objects_fresh"])
         for k in ks:
             _resume_and_compare(case, ctx, A, dt, k, os.path.join(tmp, str(k)))
-    finally:
-        shutil.rmtree(tmp, ignore_errors=True)
 
 
 def _resume_and_compare(case, ctx, A, dt, k, ckpt_dir):
